@@ -4,7 +4,7 @@ import json
 from .. import common as c, corpus, translate, custbins
 
 THEOREMS = [("Sylvia.Thm.C11", "C11." + t) for t in ["into_response_ok", "into_response_err_iff", "intoMsgs_ok", "intoMsgs_err"]] + \
-           [("Sylvia.Thm.Obl.Convertible", "Obl.convertible_complete"), ("Sylvia.Thm.Obl.Tables", "Obl.extraction_complete")]
+           [("Sylvia.Thm.Obl.Convertible", "Obl.convertible_complete"), ("Sylvia.Thm.Obl.Complete.C11", "Obl.extraction_complete_C11")]
 KINDS = ["bank", "burn", "wasm", "wasm_inst", "custom", "staking", "distribution", "ibc", "ibc_transfer", "gov", "any", "stargate"]
 
 
@@ -30,7 +30,7 @@ def run(ctx):
     ctx.assumptions += ["cargo features of the harness: staking, stargate, cosmwasm_2_0 (all CosmosMsg variants of cosmwasm-std 2.2 present)",
                         "the dispatch arms that call into_response / into_empty for `: custom(msg, query)` interfaces are covered by the L1 facts of C17/C03 streams (templates) — see DESIGN"]
     translate.regenerate()
-    c.prove(ctx, ["Sylvia.Thm.C11", "Sylvia.Thm.Obl.Tables", "Sylvia.Thm.Obl.Convertible"], THEOREMS)
+    c.prove(ctx, ["Sylvia.Thm.C11", "Sylvia.Thm.Obl.Convertible"], THEOREMS)
     exe = c.build_rt()
     rng = ctx.rng
     specs = [{"msgs": [], "attrs": [], "events": [], "data": None}]
